@@ -123,6 +123,12 @@ func seqTemplates() []func(k int) model.Stmt {
 		func(k int) model.Stmt {
 			return model.Stmt{Kind: model.SIf, Arms: []model.Arm{{Cond: fl("F", k), Body: []model.Stmt{cmd("c", k)}}, {Cond: fl("G", k), Body: nil}, {Cond: fl("H", k), Body: []model.Stmt{cmd("e", k)}}}}
 		},
+		func(k int) model.Stmt { // an empty else block
+			return model.Stmt{Kind: model.SIf, Arms: []model.Arm{{Cond: fl("F", k), Body: []model.Stmt{cmd("c", k)}}}, HasElse: true, Else: nil}
+		},
+		func(k int) model.Stmt { // elif and an empty else block
+			return model.Stmt{Kind: model.SIf, Arms: []model.Arm{{Cond: fl("F", k), Body: nil}, {Cond: fl("G", k), Body: []model.Stmt{cmd("c", k)}}}, HasElse: true, Else: nil}
+		},
 		func(k int) model.Stmt {
 			return model.Stmt{Kind: model.SWhile, Cond: fl("W", k), Body: []model.Stmt{cmd("c", k)}}
 		},
